@@ -5,6 +5,7 @@
 import MelModel.Seal
 import MelModel.SupplyDefs
 import MelModel.Lemmas.SupplySeal
+import MelModel.Lemmas.Pools
 namespace Mel
 open Mel.Gen
 
@@ -95,6 +96,96 @@ theorem C01_builtins (s : State) (d : Denom) (hk : (s.pools.map (·.1)).Nodup) :
   have a2 := h2.2
   have a3 := h3.2
   omega
+
+/-- what `create_builtins` creates of denomination `d` in state `s`: the default reserves (10^9 on each side) of each
+    builtin pool it makes — MEL/SYM, MEL/ERG and, once TIP-902 is active, ERG/SYM, whenever that pool is absent or
+    records no liquidity (the keys are distinct, so "missing" can be read off `s.pools` for all three) -/
+def builtinsCreated (s : State) (d : Denom) : Nat :=
+  (if builtinMissing s.pools poolMelSym then pc d (poolMelSym, builtinDefault) else 0) +
+  (if builtinMissing s.pools poolMelErg then pc d (poolMelErg, builtinDefault) else 0) +
+  (if s.tip902 && builtinMissing s.pools poolErgSym then pc d (poolErgSym, builtinDefault) else 0)
+
+/-- the state `preseal_melmint` hands to its SECOND `create_builtins` (since the `fix:` for finding F24): `s` with the
+    builtin pools created and the block's swaps, deposits and withdrawals settled. (When the settlement does not
+    succeed there is no such state and sealing fails; the value is then immaterial.) -/
+def settled (env : Env) (s : State) : State :=
+  match settle env (createBuiltins s) with
+  | .ok s3 => s3
+  | _ => createBuiltins s
+
+theorem settled_eq {env : Env} {s s3 : State} (h : settle env (createBuiltins s) = .ok s3) : settled env s = s3 := by
+  unfold settled; rw [h]
+
+theorem builtinMissing_fixBuiltin_ne (m : AList PoolKey PoolState) {k k' : PoolKey} (hne : k' ≠ k) :
+    builtinMissing (fixBuiltin m k) k' = builtinMissing m k' := by
+  unfold builtinMissing
+  rw [get_fixBuiltin_ne m hne]
+
+theorem poolsTotal_fixBuiltin (pools : AList PoolKey PoolState) (k : PoolKey) (d : Denom)
+    (hn : (pools.map (·.1)).Nodup) :
+    ((fixBuiltin pools k).map (·.1)).Nodup ∧
+    poolsTotal (fixBuiltin pools k) d ≤
+      poolsTotal pools d + (if builtinMissing pools k then pc d (k, builtinDefault) else 0) := by
+  unfold fixBuiltin
+  cases builtinMissing pools k with
+  | false => exact ⟨hn, by simp⟩
+  | true =>
+    simp only [if_true]
+    refine ⟨pools_nodup_set hn k _, ?_⟩
+    have h1 := poolsTotal_set hn d k builtinDefault
+    omega
+
+/-- **the builtin pools, sharp**: `create_builtins` adds to the supply of `d` at most `builtinsCreated s d` — the
+    default reserves of exactly the pools it makes — and nothing else (what a replaced pool held disappears) -/
+theorem C01_builtins_sharp (s : State) (d : Denom) (hk : (s.pools.map (·.1)).Nodup) :
+    supply (createBuiltins s) d ≤ supply s d + builtinsCreated s d := by
+  have h1 := poolsTotal_fixBuiltin s.pools poolMelSym d hk
+  have h2 := poolsTotal_fixBuiltin (fixBuiltin s.pools poolMelSym) poolMelErg d h1.1
+  have h3 := poolsTotal_fixBuiltin (fixBuiltin (fixBuiltin s.pools poolMelSym) poolMelErg) poolErgSym d h2.1
+  rw [builtinMissing_fixBuiltin_ne _ poolMelSym_ne_poolMelErg.symm] at h2
+  rw [builtinMissing_fixBuiltin_ne _ poolMelErg_ne_poolErgSym.symm,
+    builtinMissing_fixBuiltin_ne _ poolMelSym_ne_poolErgSym.symm] at h3
+  have a1 := h1.2
+  have a2 := h2.2
+  have a3 := h3.2
+  unfold supply builtinsCreated
+  show coinsTotal s.coins d + poolsTotal (createBuiltins s).pools d +
+    (if d = .mel then s.feePool + s.tips else 0) ≤ _
+  rw [createBuiltins_pools]
+  cases s.tip902 with
+  | true => simp only [if_true, Bool.true_and]; omega
+  | false => simp only [Bool.false_eq_true, if_false, Bool.false_and]; omega
+
+/-- each denomination sits on one side of at most two builtin pools: one `create_builtins` creates at most
+    `2 · 10^9` of it -/
+theorem builtinsCreated_le (s : State) (d : Denom) :
+    builtinsCreated s d ≤ 2 * (MICRO_CONVERTER * BUILTIN_LIQ_MULT) := by
+  have hl : builtinDefault.lefts = MICRO_CONVERTER * BUILTIN_LIQ_MULT := rfl
+  have hr : builtinDefault.rights = MICRO_CONVERTER * BUILTIN_LIQ_MULT := rfl
+  unfold builtinsCreated
+  simp only [pc, poolMelSym_eq, poolMelErg_eq, poolErgSym_eq, hl, hr]
+  generalize MICRO_CONVERTER * BUILTIN_LIQ_MULT = X
+  cases d <;> simp <;> (repeat' split) <;> omega
+
+/-- nothing but MEL, SYM and ERG is ever created by `create_builtins` -/
+theorem builtinsCreated_other (s : State) (d : Denom) (hm : d ≠ .mel) (hs : d ≠ .sym) (he : d ≠ .erg) :
+    builtinsCreated s d = 0 := by
+  unfold builtinsCreated
+  simp only [pc, poolMelSym_eq, poolMelErg_eq, poolErgSym_eq]
+  cases d <;> simp_all
+
+/-- when the builtin pools that are due exist and record liquidity, `create_builtins` creates nothing -/
+theorem builtinsCreated_zero (s : State) (d : Denom)
+    (hb : ∀ k ∈ [poolMelSym, poolMelErg, poolErgSym], ∃ p, s.pools.get k = some p ∧ p.liqs ≠ 0) :
+    builtinsCreated s d = 0 := by
+  have hm : ∀ k ∈ [poolMelSym, poolMelErg, poolErgSym], builtinMissing s.pools k = false := by
+    intro k hk
+    obtain ⟨p, hp, hl⟩ := hb k hk
+    unfold builtinMissing
+    rw [hp]
+    simpa using hl
+  unfold builtinsCreated
+  simp [hm poolMelSym (by simp), hm poolMelErg (by simp), hm poolErgSym (by simp)]
 
 /-- pegging touches nothing but the MEL/SYM pool (coins, fee pool, tips and all other pools are unchanged) -/
 theorem C01_pegging_local (s s' : State) (h : processPegging s = .ok s') :
@@ -217,6 +308,8 @@ end Mel
 
 #print axioms Mel.C01_settlement
 #print axioms Mel.C01_builtins
+#print axioms Mel.C01_builtins_sharp
+#print axioms Mel.builtinsCreated_le
 #print axioms Mel.C01_pegging_local
 #print axioms Mel.C01_subsidy
 #print axioms Mel.C01_reward
